@@ -231,3 +231,65 @@ def solo_case(ctx, item, prelude="", case_extra=None, dump=None):
          "exports": ["r0"], "dump": dump or {"per": 64, "nodes": 3000}}
     c.update(case_extra or {})
     return c
+
+
+def run_histories(ctx, histories, prelude="", dump=None, case_extra=None, name=None, timeout_ms=20000):
+    """histories: list of lists of steps {'name': n, 'src': expr}; one program per history
+    (`let n = expr;` per step, every name exported).  When a program fails as a whole, all of its
+    prefixes are run so that the failure is attributed to the first step that causes it; the steps
+    before it keep their outcomes, the steps after it are 'unreached'."""
+    dump = dump or {"per": 64, "nodes": 4000}
+    case_extra = case_extra or {}
+
+    def mk(h, upto, tag):
+        src = prelude + "\n" + "\n".join(f"let {s['name']} = {s['src']};" for s in h[:upto])
+        c = {"id": f"{ctx.prop}-{tag}", "source": src, "exports": [s["name"] for s in h[:upto]], "dump": dump}
+        c.update(case_extra)
+        return c
+
+    cases = [mk(h, len(h), f"h{n}") for n, h in enumerate(histories)]
+    obs = ctx.run(cases, name=name, case_timeout_ms=timeout_ms)
+    results = [None] * len(histories)
+    used_cases = list(cases)
+    redo = []
+    for n, (h, o) in enumerate(zip(histories, obs)):
+        fail = program_failure(o)
+        if fail is None:
+            results[n] = [binding_outcome(o.get("bindings", {}).get(s["name"])) for s in h]
+        else:
+            redo.append((n, fail))
+    if redo:
+        pref_cases, index = [], []
+        for n, _ in redo:
+            for k in range(1, len(histories[n]) + 1):
+                pref_cases.append(mk(histories[n], k, f"h{n}p{k}"))
+                index.append((n, k))
+        pobs = ctx.run(pref_cases, name=(name or ctx.prop) + "_prefix", case_timeout_ms=timeout_ms)
+        by = {}
+        for (n, k), c, o in zip(index, pref_cases, pobs):
+            by.setdefault(n, []).append((k, c, o))
+        for n, whole_fail in redo:
+            h = histories[n]
+            outs = [{"kind": "unreached"} for _ in h]
+            last_ok = None
+            culprit = None
+            for k, c, o in by[n]:
+                f = program_failure(o)
+                if f is None:
+                    last_ok = o
+                else:
+                    culprit = (k - 1, f, c)
+                    break
+            if last_ok is not None:
+                for i, s in enumerate(h):
+                    b = last_ok.get("bindings", {}).get(s["name"])
+                    if b is not None:
+                        outs[i] = binding_outcome(b)
+            if culprit is not None:
+                outs[culprit[0]] = culprit[1]
+                used_cases[n] = culprit[2]
+            else:
+                # every prefix passed but the whole failed once: not reproducible
+                outs[-1] = {"kind": "inconclusive", "detail": whole_fail}
+            results[n] = outs
+    return results, used_cases
